@@ -17,21 +17,6 @@ META = {
 }
 
 
-def pre_build(ctx):
-    # feature switching: re-translate enable/disable_features, the registry / annotator layer and the
-    # protected-key check (Gen/Toggle_gen.v, tied by Proofs/ToggleTie.v)
-    import translate_toggle
-
-    ok, msg = translate_toggle.regenerate()
-    if not ok:
-        raise RuntimeError("translator refused the feature-switching sources: %s" % msg)
-    import translate_annotators
-
-    ok, msg = translate_annotators.regenerate()
-    if not ok:
-        raise RuntimeError("translator refused the annotator sources: %s" % msg)
-
-
 def primitive_scenarios(ctx, n):
     """implementation-only oracle at the level of the PRIMITIVE actions (the edit machine drives user actions
     only): with a regionprops feature disabled / never enabled, UpdateNodeSeg shrinks a node - partly, and down
